@@ -46,15 +46,18 @@ pub proof fn lemma_count_some_update(s: Seq<Option<Symbol>>, i: int, v: Symbol)
 }
 
 // ---- what the block decoder believes it has received (representation invariant INV)
+#[verifier::opaque]
 pub open spec fn sbd_inv(d: SourceBlockDecoder) -> bool {
     &&& d.source_block_symbols <= 56403
     &&& d.source_symbols@.len() == d.source_block_symbols as int
     &&& d.received_esi@.finite()
     &&& forall |i: int| 0 <= i < d.source_symbols@.len() ==> ((#[trigger] d.source_symbols@[i]).is_some() <==> d.received_esi@.contains(i as u32))
     &&& d.received_source_symbols as int == count_some(d.source_symbols@)
+    &&& d.received_esi@.len() == count_some(d.source_symbols@) + d.repair_packets@.len()     // distinct symbols = source symbols + repair symbols
     // every stored payload is exactly one symbol (T bytes): packets come from the encoder of this object
     &&& forall |i: int| 0 <= i < d.source_symbols@.len() && (#[trigger] d.source_symbols@[i]).is_some() ==> d.source_symbols@[i].unwrap().value@.len() == d.symbol_size as int
     &&& forall |j: int| 0 <= j < d.repair_packets@.len() ==> (#[trigger] d.repair_packets@[j]).data@.len() == d.symbol_size as int
+    &&& forall |j: int| 0 <= j < d.repair_packets@.len() ==> (#[trigger] d.repair_packets@[j]).payload_id.encoding_symbol_id < 16777216   // PayloadId is a 24-bit id
     // repair packets: exactly the received ESIs >= K, in arrival order, without repetition
     &&& forall |j: int| 0 <= j < d.repair_packets@.len() ==> (#[trigger] d.repair_packets@[j]).payload_id.encoding_symbol_id >= d.source_block_symbols
                         && d.received_esi@.contains(d.repair_packets@[j].payload_id.encoding_symbol_id)
@@ -62,6 +65,22 @@ pub open spec fn sbd_inv(d: SourceBlockDecoder) -> bool {
                         (#[trigger] d.repair_packets@[j]).payload_id.encoding_symbol_id != (#[trigger] d.repair_packets@[k]).payload_id.encoding_symbol_id
     &&& forall |e: u32| d.received_esi@.contains(e) && e >= d.source_block_symbols ==>
                         exists |j: int| 0 <= j < d.repair_packets@.len() && (#[trigger] d.repair_packets@[j]).payload_id.encoding_symbol_id == e
+}
+pub proof fn lemma_inv_basic(d: SourceBlockDecoder)
+    requires sbd_inv(d),
+    ensures d.source_block_symbols <= 56403, d.source_symbols@.len() == d.source_block_symbols as int,
+            d.received_source_symbols as int == count_some(d.source_symbols@),
+            d.received_esi@.len() == count_some(d.source_symbols@) + d.repair_packets@.len(),
+            count_some(d.source_symbols@) <= d.source_block_symbols as int,
+{
+    reveal(sbd_inv);
+    lemma_count_some_bound(d.source_symbols@);
+}
+pub open spec fn sbd_basic(d: SourceBlockDecoder) -> bool {
+    d.source_block_symbols <= 56403 && d.source_symbols@.len() == d.source_block_symbols as int
+    && d.received_source_symbols as int == count_some(d.source_symbols@)
+    && d.received_esi@.len() == count_some(d.source_symbols@) + d.repair_packets@.len()
+    && count_some(d.source_symbols@) <= d.source_block_symbols as int
 }
 // configuration fields never change after construction
 pub open spec fn sbd_same_params(a: SourceBlockDecoder, b: SourceBlockDecoder) -> bool {
@@ -170,6 +189,61 @@ pub open spec fn dvec_spec(d: SourceBlockDecoder, prefix: int) -> Seq<Seq<u8>> {
 pub open spec fn tpd_spec(d: SourceBlockDecoder, c: Option<SymbolSlab>) -> Option<Seq<u8>> {
     match c { None => None, Some(cc) => Some(block_from(d, Some(cc))) }
 }
+pub proof fn lemma_src_rows_len(s: Seq<Option<Symbol>>, n: nat)
+    requires n <= s.len(),
+    ensures src_rows(s, n).len() == src_isis(s, n).len(), src_rows(s, n).len() <= n,
+    decreases n,
+{
+    if n > 0 { lemma_src_rows_len(s, (n - 1) as nat); }
+}
+pub proof fn lemma_src_count(s: Seq<Option<Symbol>>)
+    ensures src_isis(s, s.len()).len() == count_some(s), src_rows(s, s.len()).len() == count_some(s),
+{
+    lemma_src_isis_len(s, s.len());
+    lemma_src_rows_len(s, s.len());
+    assert(s.subrange(0, s.len() as int) =~= s);
+}
+pub proof fn lemma_inv_frame(a: SourceBlockDecoder, b: SourceBlockDecoder)
+    requires sbd_inv(a), sbd_same_received(a, b),
+    ensures sbd_inv(b),
+{
+    reveal(sbd_inv);
+}
+pub proof fn lemma_src_rows_mono(s: Seq<Option<Symbol>>, a: nat, b: nat)
+    requires a <= b <= s.len(),
+    ensures src_rows(s, a).len() <= src_rows(s, b).len(),
+            forall |r: int| 0 <= r < src_rows(s, a).len() ==> #[trigger] src_rows(s, a)[r] == src_rows(s, b)[r],
+    decreases b - a,
+{
+    if a < b { lemma_src_rows_mono(s, a, (b - 1) as nat); }
+}
+pub proof fn lemma_isis_len(d: SourceBlockDecoder)
+    requires sbd_basic(d), d.source_block_symbols as int <= kprime_of(d.source_block_symbols as int),
+    ensures isis_spec(d).len() == count_some(d.source_symbols@) + (kprime_of(d.source_block_symbols as int) - d.source_block_symbols as int) + d.repair_packets@.len(),
+{
+    lemma_src_count(d.source_symbols@);
+}
+pub proof fn lemma_assemble_frame(a: SourceBlockDecoder, b: SourceBlockDecoder, c: Option<SymbolSlab>, n: nat)
+    requires sbd_same_received(a, b),
+    ensures assemble(a, c, n) == assemble(b, c, n),
+    decreases n,
+{
+    if n > 0 { lemma_assemble_frame(a, b, c, (n - 1) as nat); }
+}
+pub proof fn lemma_tpd_frame(a: SourceBlockDecoder, b: SourceBlockDecoder)
+    requires sbd_same_received(a, b),
+    ensures forall |c: Option<SymbolSlab>| #[trigger] tpd_spec(a, c) == tpd_spec(b, c),
+            isis_spec(a) == isis_spec(b), forall |p: int| #[trigger] dvec_spec(a, p) == dvec_spec(b, p),
+            block_from(a, None) == block_from(b, None),
+{
+    assert forall |c: Option<SymbolSlab>| #[trigger] tpd_spec(a, c) == tpd_spec(b, c) by {
+        if c.is_some() { lemma_assemble_frame(a, b, c, a.source_block_symbols as nat); }
+    }
+    lemma_assemble_frame(a, b, None, a.source_block_symbols as nat);
+    assert forall |p: int| #[trigger] dvec_spec(a, p) == dvec_spec(b, p) by {
+        assert(dvec_spec(a, p) =~= dvec_spec(b, p));
+    }
+}
 // THE ANSWER of a block decoder as a function of its received state and the (assumed) solver: the case analysis of C02
 pub open spec fn answer_spec(d: SourceBlockDecoder) -> Option<Seq<u8>> {
     let k = d.source_block_symbols as int;
@@ -260,7 +334,7 @@ impl SymbolSlab {
     #[verifier::external_body]
     pub fn get_mut(&mut self, i: usize) -> (r: &mut [u8])
         requires (i as int) < slab_rows(*old(self)).len(),
-        ensures r@ == slab_rows(*old(self))[i as int], final(r)@.len() == r@.len(),
+        ensures r@ == slab_rows(*old(self))[i as int], final(r)@.len() == r@.len(), r@.len() == slab_ss(*old(self)),
                 slab_rows(*final(self)) == slab_rows(*old(self)).update(i as int, final(r)@), slab_ss(*final(self)) == slab_ss(*old(self)),
     { unimplemented!() }
 }
@@ -320,7 +394,7 @@ fn fused_inverse_mul_symbols_no_hdpc<T: BinaryMatrix>(matrix: T, symbols: Symbol
                   'r.symbol_alignment == config.symbol_alignment', 'r.source_block_symbols as int == block_length as int / config.symbol_size as int',
                   'r.received_esi@ == Set::<u32>::empty()', 'r.repair_packets@.len() == 0', 'r.sparse_threshold == SPARSE_MATRIX_THRESHOLD'],
          inserts=[('let source_symbols = int_div_ceil', 'before',
-                   'proof { lemma_ceil_div_exact(block_length as int, config.symbol_size as int); lemma_mod_multiples_basic(block_length as int / config.symbol_size as int, config.symbol_size as int); }'),
+                   'proof { reveal(sbd_inv); lemma_ceil_div_exact(block_length as int, config.symbol_size as int); lemma_mod_multiples_basic(block_length as int / config.symbol_size as int, config.symbol_size as int); }'),
                   ('SourceBlockDecoder {', 'before', 'let verif_syms: Vec<Option<Symbol>> = verif_none_vec(source_symbols as usize);\nproof { lemma_count_some_bound(verif_syms@); }')],
          subst=[('source_symbols: vec![None; source_symbols as usize],', 'source_symbols: verif_syms,', 'S1-vec-from-elem-None')])
     u.fn('src/decoder.rs', 'unpack_sub_blocks', impl='impl SourceBlockDecoder', ret='r', external_body=True,
@@ -333,8 +407,8 @@ fn fused_inverse_mul_symbols_no_hdpc<T: BinaryMatrix>(matrix: T, symbols: Symbol
     STEP_PROOF = ('proof { let esi = payload_id.encoding_symbol_id; }')
     u.fn('src/decoder.rs', 'decode', impl='impl SourceBlockDecoder', rename='decode_step', d5='step', ret='r',
          sig_override='fn decode_step(&mut self, packet: EncodingPacket)',
-         rules=['A1'],
-         requires=['sbd_inv(*old(self))', 'packet.payload_id.source_block_number == old(self).source_block_id', 'packet.data@.len() == old(self).symbol_size as int'],
+         rules=['A1'], prepend='proof { reveal(sbd_inv); }',
+         requires=['sbd_inv(*old(self))', 'packet.payload_id.source_block_number == old(self).source_block_id', 'packet.data@.len() == old(self).symbol_size as int', 'packet.payload_id.encoding_symbol_id < 16777216'],
          ensures=['sbd_inv(*final(self))', 'step_spec(*old(self), *final(self), packet)'],
          inserts=[('self.received_source_symbols += 1;', 'before',
                    'proof { lemma_count_some_update(old(self).source_symbols@, payload_id.encoding_symbol_id as int, Symbol { value: payload }); }'),
@@ -383,9 +457,82 @@ fn fused_inverse_mul_symbols_no_hdpc<T: BinaryMatrix>(matrix: T, symbols: Symbol
              sig_subst=[('constraint_matrix: impl BinaryMatrix', 'constraint_matrix: T'), ('fn %s(' % name, 'fn %s<T: BinaryMatrix>(' % name)],
              inserts=[('let mut result = vec![0;', 'before',
                        'proof { assert(self.symbol_size as int * self.source_block_symbols as int <= 65535 * 56403) by (nonlinear_arith) requires self.symbol_size <= 65535, self.source_block_symbols <= 56403; }')],
-             loops={0: inv})
+             prepend='proof { reveal(sbd_inv); }',
+             loops={0: {'spec': inv, 'body_top': 'proof { reveal(sbd_inv); }'}})
     tpd('try_pi_decode', 'solve_std', '')
     tpd('try_pi_decode_no_hdpc', 'solve_nohdpc', '')
+    K = 'self.source_block_symbols as int'
+    frame = ('sbd_inv(*self), sbd_basic(*self), sbd_same_received(*old(self), *self), consts_ok(%s),'
+             ' num_extended_symbols as int == kprime_of(%s), num_padding_symbols as int == kprime_of(%s) - %s,'
+             ' self.symbol_size >= 1, self.symbol_alignment >= 1, self.symbol_size as int %% self.symbol_alignment as int == 0,'
+             ' 1 <= self.num_sub_blocks as int <= self.symbol_size as int / self.symbol_alignment as int, self.repair_packets@.len() <= 16777216,' % (K, K, K, K))
+    frame3 = frame + (' s as int == s_of(%s), h as int == h_of(%s), l as int == l_of(%s),' % (K, K, K))
+    ISIS = 'src_isis(self.source_symbols@, %s as nat)' % K
+    PAD = 'pad_isis(%s, (kprime_of(%s) - %s) as nat)' % (K, K, K)
+
+    def dbuild(slab, prefix, total):
+        """invariants of the three loops that fill one D vector (pointwise description of the rows)"""
+        rows = 'slab_rows(%s)' % slab
+        SR = 'src_rows(self.source_symbols@, %s as nat)'
+        base = frame3 + (' encoded_isis@ == isis_spec(*self), slab_rows(%s).len() == %s as int, slab_ss(%s) == self.symbol_size as int, ss == self.symbol_size as usize,'
+                         ' %s as int == %s as int + self.received_source_symbols as int + num_padding as int + num_repair as int,'
+                         ' num_padding as int == kprime_of(%s) - %s, num_repair == self.repair_packets@.len(),' % (slab, total, slab, total, prefix, K, K))
+        l4 = ('invariant ' + base + ' row as int == %s as int + src_rows(self.source_symbols@, verif_k as nat).len(),'
+              ' forall |r: int| 0 <= r < %s as int ==> #[trigger] %s[r] == (if (%s as int <= r && r < (row as int)) { src_rows(self.source_symbols@, verif_k as nat)[r - %s as int] } else { zero_row(self.symbol_size as int) }),'
+              % (prefix, total, rows, prefix, prefix))
+        l5 = ('invariant ' + base + ' row as int == %s as int + self.received_source_symbols as int + (_i as int - %s), %s <= _i as int,'
+              ' forall |r: int| 0 <= r < %s as int ==> #[trigger] %s[r] == (if (%s as int <= r && r < %s as int + (self.received_source_symbols as int)) { %s[r - %s as int] } else { zero_row(self.symbol_size as int) }),'
+              % (prefix, K, K, total, rows, prefix, prefix, SR % K, prefix))
+        l6 = ('invariant ' + base + ' row as int == %s as int + self.received_source_symbols as int + num_padding as int + verif_it.index@,'
+              ' forall |r: int| 0 <= r < %s as int ==> #[trigger] %s[r] == (if (%s as int <= r && r < %s as int + (self.received_source_symbols as int)) { %s[r - %s as int] }'
+              ' else if (%s as int + self.received_source_symbols as int + num_padding as int <= r && r < (row as int)) { self.repair_packets@[r - (%s as int + self.received_source_symbols as int + num_padding as int)].data@ }'
+              ' else { zero_row(self.symbol_size as int) }),'
+              % (prefix, total, rows, prefix, prefix, SR % K, prefix, prefix, prefix))
+        return l4, l5, l6
+    a4, a5, a6 = dbuild('d_no_hdpc', 's', 'total_no_hdpc')
+    b4, b5, b6 = dbuild('d', '(s + h)', 'total')
+    SRC_STEP = 'proof { reveal(sbd_inv); lemma_src_rows_mono(self.source_symbols@, (verif_k + 1) as nat, self.source_symbols@.len()); lemma_src_rows_len(self.source_symbols@, verif_k as nat); lemma_src_rows_len(self.source_symbols@, (verif_k + 1) as nat); lemma_src_count(self.source_symbols@); }'
+    SRC_DONE = 'proof { lemma_src_count(self.source_symbols@); }'
+    DV_DONE = ('proof { lemma_src_count(self.source_symbols@); assert(slab_rows(%s) =~= dvec_spec(*self, %s as int)); lemma_tpd_frame(*old(self), *self); }')
+    u.fn('src/decoder.rs', 'decode', impl='impl SourceBlockDecoder', rename='decode_tail', d5='tail', ret='r',
+         sig_override='fn decode_tail(&mut self) -> Option<Vec<u8>>',
+         rules=['D1', 'D2', 'A1'], prepend='proof { lemma_inv_basic(*self); }',
+         requires=['sbd_inv(*old(self))'] + PARAMS_OK + ['old(self).repair_packets@.len() <= 16777216'],
+         ensures=['sbd_same_received(*old(self), *final(self))',
+                  'match r { Some(v) => Some(v@), None => None } == answer_spec(*old(self))'],
+         resubst=[(r'for repair_packet in self\.repair_packets\.iter\(\) \{', 'for repair_packet in verif_it: self.repair_packets.iter() {', 'name-iterator')],
+         inserts=[('let num_extended_symbols = extended_source_block_symbols', 'after',
+                   'proof { lemma_src_count(self.source_symbols@); lemma_count_some_bound(self.source_symbols@); }'),
+                  ('let mut result =', 'before',
+                   'proof { assert(self.symbol_size as int * self.source_block_symbols as int <= 65535 * 56403) by (nonlinear_arith) requires self.symbol_size <= 65535, self.source_block_symbols <= 56403; }'),
+                  ('let mut encoded_isis = vec![];', 'replace', 'let mut encoded_isis: Vec<u32> = vec![];'),
+                  ('let num_padding = (num_extended_symbols', 'before',
+                   'proof { lemma_src_count(self.source_symbols@); assert(encoded_isis@ =~= isis_spec(*self)); lemma_isis_len(*self); }'),
+                  ('let mut d_no_hdpc = SymbolSlab::with_zeros', 'before',
+                   'proof { assert(total_no_hdpc as int * ss as int <= (907 + 56403 + 56403 + 16777216) * 65535) by (nonlinear_arith) requires total_no_hdpc as int <= 907 + 56403 + 56403 + 16777216, ss <= 65535; }'),
+                  ('let total = s + h + self.received_source_symbols', 'before',
+                   'proof { lemma_inv_frame(*old(self), *self); lemma_inv_basic(*self); lemma_tpd_frame(*old(self), *self); }'),
+                  ('let mut d = SymbolSlab::with_zeros', 'before',
+                   'proof { assert(total as int * ss as int <= (907 + 16 + 56403 + 56403 + 16777216) * 65535) by (nonlinear_arith) requires total as int <= 907 + 16 + 56403 + 56403 + 16777216, ss <= 65535; }'),
+                  ('let result = if num_extended_symbols >= self.sparse_threshold', 'before', DV_DONE % ('d_no_hdpc', 's')),
+                  ('if num_extended_symbols >= self.sparse_threshold {\n            let (constraint_matrix, hdpc)', 'before', DV_DONE % ('d', '(s + h)')),
+                  ],
+         loops={
+             0: {'spec': 'invariant ' + frame + ' result@.len() == self.symbol_size as int * self.source_block_symbols as int, self.received_source_symbols as int == %s,'
+                         ' forall |j: int| 0 <= j < %s ==> (#[trigger] self.source_symbols@[j]).is_some() && self.source_symbols@[j].unwrap().value@.len() == self.symbol_size as int,'
+                         ' result@ == assemble(*old(self), None, i as nat),' % (K, K),
+                 'before': 'proof { reveal(sbd_inv); lemma_count_some_bound(self.source_symbols@); }'},
+             1: {'spec': 'invariant ' + frame3 + ' encoded_isis@ == src_isis(self.source_symbols@, i as nat),'},
+             2: {'before': 'proof { assert(encoded_isis@ =~= %s + pad_isis(%s, 0)); }' % (ISIS, K),
+                 'spec': 'invariant ' + frame3 + ' %s <= i as int, encoded_isis@ == %s + pad_isis(%s, (i as int - %s) as nat),' % (K, ISIS, K, K),
+                 'body_bottom': 'proof { assert(encoded_isis@ =~= %s + pad_isis(%s, (i as int + 1 - %s) as nat)); }' % (ISIS, K, K)},
+             3: {'before': 'proof { assert(encoded_isis@ =~= %s + %s + rep_isis(self.repair_packets@, kprime_of(%s) - %s, 0)); }' % (ISIS, PAD, K, K),
+                 'body_top': 'proof { reveal(sbd_inv); }',
+                 'spec': 'invariant ' + frame3 + ' encoded_isis@ == %s + %s + rep_isis(self.repair_packets@, kprime_of(%s) - %s, verif_it.index@ as nat),' % (ISIS, PAD, K, K),
+                 'body_bottom': 'proof { assert(encoded_isis@ =~= %s + %s + rep_isis(self.repair_packets@, kprime_of(%s) - %s, (verif_it.index@ + 1) as nat)); }' % (ISIS, PAD, K, K)},
+             4: {'spec': a4, 'body_top': SRC_STEP}, 5: {'spec': a5, 'before': SRC_DONE}, 6: {'spec': a6, 'body_top': 'proof { reveal(sbd_inv); }'},
+             7: {'spec': b4, 'body_top': SRC_STEP}, 8: {'spec': b5, 'before': SRC_DONE}, 9: {'spec': b6, 'body_top': 'proof { reveal(sbd_inv); }'},
+         })
     u.raw('}')
     u.raw('} // verus!')
     return u
